@@ -226,8 +226,14 @@ class TCPRegistryServer(RegistryServer):
 
     def _recv(self):
         sock2, _ = self.sock.accept()
-        addrinfo = sock2.getpeername()
-        data = sock2.recv(MAX_DGRAM_SIZE)
+        try:
+            addrinfo = sock2.getpeername()
+            # a client that connects and sends nothing must not block the registry for ever
+            sock2.settimeout(self.TIMEOUT)
+            data = sock2.recv(MAX_DGRAM_SIZE)
+        except Exception:
+            sock2.close()
+            raise
         self._connected_sockets[addrinfo] = sock2
         return data, addrinfo
 
